@@ -113,6 +113,18 @@ def run(ctx):
     origin, small, big = {}, [], []
     if runner.ok:
         batches, origin, small, big = requests(ctx)
+        # exterior / enclosed domains, loop indices and connectivity must describe the CURRENT rotation: query,
+        # rotate the object through `turns`, query again in the other order (state machine of Model/Views.v)
+        tr = []
+        pool = [x for x in small if "+" in x and len(x) <= 7] + ["(.)+.", ".+(.)", "(.)+(.)", "(.).+.", "((.))+.", ".+(.)+.", "(.)(+).", "(+(.))+."]
+        for s_ in (pool if ctx.tier != "quick" else ctx.rng.sample(pool, min(len(pool), 300)) + pool[-8:]):
+            n_ = s_.count("+") + 1
+            sq_ = gs.seq_for(ctx.rng, s_)
+            for first in (["enclosed_domains"], ["exterior_domains"], ["get_loop_index", [0, 0]], ["is_connected"]):
+                tr.append(("c03_history", [sq_, list(s_), [first, ["set_turns", ctx.rng.randrange(1, n_ + 2)],
+                                                            ["enclosed_domains"], ["exterior_domains"],
+                                                            ["get_loop_index", [0, 0]], ["is_connected"]]]))
+        batches["views-after-turns"] = tr
         for name, reqs in batches.items():
             diffs += correspond(ctx, name, reqs, canon=canon)
     ctx.cov["rule"] = ("every well-formed structure with non-empty strands up to the tier's length bound (8 quick / 10 "
